@@ -314,7 +314,9 @@ func TestC04Concurrent(t *testing.T) {
 
 func yield(*nodes.N) { runtime.Gosched() }
 
-func ownedBy(o *incarnation, g int, _ []*incarnation, _ eventlogger.PipelineID) bool { return o.owner == g }
+func ownedBy(o *incarnation, g int, _ []*incarnation, _ eventlogger.PipelineID) bool {
+	return o.owner == g
+}
 
 // ---------------------------------------------------------------------------
 // quiescent linearizability (porcupine)
@@ -481,7 +483,9 @@ func step(st linState, op model.Op, out linOut) (bool, linState) {
 }
 
 var linModel = porcupine.Model{
-	Init: func() interface{} { return linState{nodes: map[string]bool{}, pipes: map[string]linPipe{}, thr: map[string]int{}} },
+	Init: func() interface{} {
+		return linState{nodes: map[string]bool{}, pipes: map[string]linPipe{}, thr: map[string]int{}}
+	},
 	Step: func(state, input, output interface{}) (bool, interface{}) {
 		ok, ns := step(state.(linState), input.(model.Op), output.(linOut))
 		return ok, ns
